@@ -293,9 +293,16 @@ class EndToEnd(Case):
     """real evaluation code underneath: density-level function == definition over reference basis-function jets"""
 
     prop = "C06"
-    canary_scale = "Ae0"
+    canary_scale = "Ac0_0"
     rtol = 1e-7
     query_timeout = 120000
+
+    @property
+    def concrete(self):
+        c = self.params.get("exps")
+        if not c:
+            return None
+        return {f"{t}e{k}": v for t, vs in zip("ABCD", c) for k, v in enumerate(vs)}
 
     def inputs(self, mk):
         p = self.params
@@ -404,7 +411,7 @@ def cases(tier, seed=0):
         if tier == "thorough" and fn == "density":
             out.append(Threshold(fn=fn, nb=2, npts=2, psd=2, thr="sym"))
         if tier == "thorough":
-            out.append(Threshold(fn=fn, nb=3, npts=np2, thr="sym"))
+            out.append(Threshold(fn=fn, nb=3, npts=1, thr="sym"))
             out.append(Threshold(fn=fn, nb=3, npts=1, psd=1, thr="sym"))
             if fn == "density":
                 out.append(Threshold(fn=fn, nb=2, npts=3, thr="sym"))
@@ -418,12 +425,12 @@ def cases(tier, seed=0):
     out.append(EndToEnd(fn="laplacian", deriv_type="direct", **ee))
     out.append(EndToEnd(fn="deriv_density", orders=[1, 0, 1], **ee))
     # mixed coordinate types with a two-column shell (the assembly path of the evaluation layer matters here)
-    out.append(EndToEnd(fn="gradient", ls=[1, 0], types="sc", Ks=[1, 1], Ms=[2, 1]))
+    out.append(EndToEnd(fn="gradient", ls=[1, 0], types="sc", Ks=[1, 1], Ms=[2, 1], exps=[["7/10"], ["3/2"]]))
     if tier == "thorough":
         out.append(EndToEnd(fn="hessian", **ee))
-        out.append(EndToEnd(fn="hessian", deriv_type="direct", ls=[1, 2], types="cs", Ks=[1, 1], Ms=[1, 1]))
-        out.append(EndToEnd(fn="deriv_density", orders=[3, 1, 0], ls=[2, 0], types="sc", Ks=[1, 1], Ms=[1, 2]))
-        out.append(EndToEnd(fn="gradient", ls=[1, 1], types="sc", Ks=[1, 1], Ms=[2, 1]))
+        out.append(EndToEnd(fn="hessian", deriv_type="direct", ls=[1, 0], types="cc", Ks=[1, 1], Ms=[1, 1], exps=[["7/10"], ["3/2"]]))
+        out.append(EndToEnd(fn="deriv_density", orders=[3, 1, 0], ls=[1, 0], types="sc", Ks=[1, 1], Ms=[1, 2], exps=[["7/10"], ["3/2"]]))
+        out.append(EndToEnd(fn="gradient", ls=[2, 0], types="sc", Ks=[1, 1], Ms=[1, 1], exps=[["3/10"], ["5"]]))
     return out
 
 
